@@ -174,6 +174,43 @@ Proof.
       apply (Hin y). now left.
 Qed.
 
+(* the repaired merge keeps every holder *)
+Lemma merged_pairs ps ino : flat_map (fun d => pairs_of d ino) (dicts ps) = holders ps ino.
+Proof.
+  induction ps as [|p r IH]; [reflexivity|].
+  unfold holders, dicts in *. cbn [flat_map]. destruct (p_visible p) eqn:Hv.
+  - cbn [app flat_map]. rewrite (holders_in_visible p ino Hv). f_equal. exact IH.
+  - cbn [app]. rewrite (holders_in_hidden p ino Hv). exact IH.
+Qed.
+Lemma lookup_merged_holders ps ino :
+  lookup_merged (dicts ps) ino = match holders ps ino with [] => None | l => Some l end.
+Proof. unfold lookup_merged. now rewrite merged_pairs. Qed.
+
+Lemma lookup_v_lk_ok v ds : lk_ok (lookup_v v ds).
+Proof.
+  unfold lookup_v. destruct (v_merge v); [|apply lookup_all_lk_ok].
+  intros ino. unfold lookup_merged. destruct (flat_map _ ds); discriminate.
+Qed.
+
+Lemma lookup_v_cases v ps ino :
+  (holders ps ino = [] /\ lookup_v v (dicts ps) ino = None)
+  \/ (exists l, lookup_v v (dicts ps) ino = Some l /\ l <> [] /\ incl l (holders ps ino)).
+Proof.
+  unfold lookup_v. destruct (v_merge v); [|apply lookup_all_cases].
+  rewrite lookup_merged_holders. destruct (holders ps ino) as [|h t].
+  - left. split; reflexivity.
+  - right. exists (h :: t). repeat split; [discriminate|apply incl_refl].
+Qed.
+
+Lemma lookup_v_unshared v ps ino :
+  v_merge v = true \/ one_holder_proc ps ino = true ->
+  lookup_v v (dicts ps) ino = match holders ps ino with [] => None | l => Some l end.
+Proof.
+  unfold lookup_v. intros [H|H].
+  - rewrite H. apply lookup_merged_holders.
+  - destruct (v_merge v); [apply lookup_merged_holders|now apply lookup_all_unshared].
+Qed.
+
 (* one process *)
 Lemma lookup1_proc p ino :
   p_visible p = true ->
